@@ -90,6 +90,6 @@ theorem quat_cast_mat3_cast {K : Type} [Field K] [LinearOrder K] [IsStrictOrdere
 
 /-- non-vacuity -/
 example : (lookup "mat3ofprod" [1]).nIn = 8 ∧ (lookup "mat3ofprod" [1]).outs.length = 9 ∧
-    f_euler3.keys.length = 12 ∧ families.length = 29 := by decide +kernel
+    f_euler3.keys.length = 12 ∧ families.length = 31 := by decide +kernel
 
 end Glm.Props.C04
